@@ -2430,6 +2430,10 @@ def positional_form(F, chain, I=("i",)):
             return inner
         if re.search(r"(::iter|::iter_mut|::into_iter)$", name):
             x = clean(a[0])
+            # (an adaptor chain this function cannot read — rev, skip, filter, .. — is not an opaque *collection*: its
+            # positions are not those of the sequence underneath)
+            if x[0] == "call" and re.search(r"Iterator>?::\w+$|Itertools::\w+$", x[1].split("{")[0]):
+                return None
             return ("at", x, I), {("len", x)}
         return None
     if len(a) == 1 and itm(name, "enumerate"):
